@@ -10,6 +10,67 @@ import (
 // A case is fully described by its header line (`case gg <generator> key=value ...`), so that a
 // replay file (which stores only request lines) can rebuild the definition file and the options.
 
+// ---------------------------------------------------------------- layouts shared by the three generators
+//
+// split=K (2..4): the declarations a generator looks up in the PACKAGE scope (gsort / gerror: the
+// struct types named by -types; genum: the enum types and the local trait types) are spread over K
+// files of the package instead of all sitting in the definition file handed to the generator.
+// The other files are named so that some sort before and some after the definition file, and the
+// types are dealt to the files in REVERSE name order: the order of the files on disk, the order in
+// which go/packages happens to parse them and the order of the type names all differ.
+//
+// out=<name>: the output file is named by the caller (-out / -out-file) and does not end in the
+// generator's default suffix.
+
+// splitFiles: the K file names, sorted, for a definition file called defName.
+func splitFiles(k int, defName string) []string {
+	names := []string{defName}
+	switch {
+	case k >= 4:
+		names = append(names, "a_types.go", "m_types.go", "z_types.go")
+	case k == 3:
+		names = append(names, "a_types.go", "z_types.go")
+	case k == 2:
+		names = append(names, "z_types.go")
+	}
+	sort.Strings(names)
+	return names
+}
+
+// fileOfType: the file that declares the ti-th type (of nTypes) under split=k.
+func fileOfType(k, ti int, defName string) string {
+	if k < 2 {
+		return defName
+	}
+	fs := splitFiles(k, defName)
+	return fs[len(fs)-1-ti%len(fs)]
+}
+
+func parseSplitOut(m map[string]string) (split int, out string, err error) {
+	if v := m["split"]; v != "" {
+		split, err = strconv.Atoi(v)
+		if err != nil || split < 2 || split > 4 {
+			return 0, "", fmt.Errorf("bad split")
+		}
+	}
+	out = m["out"]
+	if out != "" && (!strings.HasSuffix(out, ".go") || strings.ContainsAny(out, "/\\ ")) {
+		return 0, "", fmt.Errorf("bad out")
+	}
+	return split, out, nil
+}
+
+func splitOutWords(split int, out string) string {
+	h := ""
+	if split >= 2 {
+		h += fmt.Sprintf(" split=%d", split)
+	}
+	if out != "" {
+		h += " out=" + out
+	}
+	return h
+}
+
 // ---------------------------------------------------------------- genum
 
 // traitKind describes one column of trait constants.
@@ -110,8 +171,10 @@ type genumCase struct {
 	shape  string // plain | dup (deprecated duplicate of the last value, no trait columns) | duptraits | two (two enum types) | dup2 | alias
 	file   string // stem of the definition file name ("" = defs)
 	only1  bool   // shape two: the run under test asks for the first type only
-	prev   string // "" | allon | moretypes: a previous run with a LONGER output precedes the run under test in the same package
+	prev   string // "" | allon | moretypes: a previous run with a LONGER output precedes the run under test in the same package; same: the identical run
 	bad    string // out-of-domain malformation ("" = in domain)
+	split  int    // 2: the enum types and the local trait types are declared in another file than the constants
+	out    string // custom output file name
 }
 
 func tf(b bool) string {
@@ -154,7 +217,7 @@ func (c *genumCase) header() string {
 	if c.bad != "" {
 		h += " bad=" + c.bad
 	}
-	return h
+	return h + splitOutWords(c.split, c.out)
 }
 
 func kv(ws []string) map[string]string {
@@ -170,6 +233,10 @@ func kv(ws []string) map[string]string {
 func parseGenum(ws []string) (*genumCase, error) {
 	m := kv(ws)
 	c := &genumCase{under: m["under"], shape: m["shape"], bad: m["bad"], only1: m["only1"] == "t", prev: m["prev"], file: m["file"]}
+	var err0 error
+	if c.split, c.out, err0 = parseSplitOut(m); err0 != nil {
+		return nil, err0
+	}
 	if len(m["o"]) != 5 {
 		return nil, fmt.Errorf("bad options")
 	}
@@ -239,42 +306,68 @@ func (c *genumCase) parsable() []string {
 	return r
 }
 
-// source renders the definition file.
-func (c *genumCase) source(pkg string) string {
-	var b strings.Builder
+// source renders the definition file (all of it, or its share under split).
+func (c *genumCase) source(pkg string) string { return c.files(pkg, "defs.go")["defs.go"] }
+
+// files renders every hand-written file of the package: the definition file (the constants) and,
+// under split, the file that declares the enum types and the local trait types.
+func (c *genumCase) files(pkg, defName string) map[string]string {
+	var b, tb strings.Builder
+	split := c.split >= 2
 	fmt.Fprintf(&b, "package %s\n\n", pkg)
-	imps := map[string]bool{}
+	fmt.Fprintf(&tb, "package %s\n\n", pkg)
+	imps := map[string]bool{}  // imports of the file holding the constants
+	timps := map[string]bool{} // imports of the file holding the type declarations
 	decls := map[string]bool{}
 	for _, t := range c.traits {
 		k := traitKinds[t.kind]
-		if k.imp != "" {
-			imps[k.imp] = true
-		}
 		if k.decl != "" {
 			decls[k.decl] = true
 		}
+		if k.imp != "" {
+			// a kind with a declaration of its own needs its import there, the others in their constants
+			if k.decl != "" && split {
+				timps[k.imp] = true
+			} else {
+				imps[k.imp] = true
+			}
+		}
 	}
-	if len(imps) > 0 {
+	writeImps := func(w *strings.Builder, set map[string]bool) {
+		if len(set) == 0 {
+			return
+		}
 		names := []string{}
-		for i := range imps {
+		for i := range set {
 			names = append(names, i)
 		}
 		sort.Strings(names)
 		for _, i := range names {
-			fmt.Fprintf(&b, "import %q\n", i)
+			fmt.Fprintf(w, "import %q\n", i)
 		}
-		b.WriteString("\n")
+		w.WriteString("\n")
 	}
+	writeImps(&b, imps)
+	writeImps(&tb, timps)
 	dl := []string{}
 	for d := range decls {
 		dl = append(dl, d)
 	}
 	sort.Strings(dl)
 	for _, d := range dl {
-		b.WriteString(d + "\n")
+		if split {
+			tb.WriteString(d + "\n")
+		} else {
+			b.WriteString(d + "\n")
+		}
 	}
 	for ti, tn := range c.allTypeNames() {
-		fmt.Fprintf(&b, "type %s %s\n\nconst (\n", tn, c.under)
+		if split {
+			fmt.Fprintf(&tb, "type %s %s\n\n", tn, c.under)
+			b.WriteString("const (\n")
+		} else {
+			fmt.Fprintf(&b, "type %s %s\n\nconst (\n", tn, c.under)
+		}
 		pre := []string{"A", "B"}[ti]
 		for i := 0; i < c.n; i++ {
 			names := []string{fmt.Sprintf("%sV%d", pre, i)}
@@ -347,7 +440,11 @@ func (c *genumCase) source(pkg string) string {
 		}
 		b.WriteString(")\n\n")
 	}
-	return b.String()
+	res := map[string]string{defName: b.String()}
+	if split {
+		res[fileOfType(2, 0, defName)] = tb.String()
+	}
+	return res
 }
 
 // modelKinds: the trait kinds as the Lean model names them.
@@ -432,9 +529,11 @@ type gerrorCase struct {
 	two    bool // two error types in one file
 	file   string
 	only1  bool   // with two: the run under test asks for the first type only
-	prev   string // "" | noskip | moretypes: previous, longer output in the same package
+	prev   string // "" | noskip | moretypes: previous, longer output in the same package; same: the identical run
 	fields []gerrField
 	bad    string
+	split  int    // 2 (with two): the two error types are declared in different files
+	out    string // custom output file name
 }
 
 func (c *gerrorCase) header() string {
@@ -455,12 +554,16 @@ func (c *gerrorCase) header() string {
 	if c.bad != "" {
 		h += " bad=" + c.bad
 	}
-	return h
+	return h + splitOutWords(c.split, c.out)
 }
 
 func parseGerror(ws []string) (*gerrorCase, error) {
 	m := kv(ws)
 	c := &gerrorCase{skip: m["skip"] == "t", custom: m["custom"] == "t", two: m["two"] == "t", bad: m["bad"], only1: m["only1"] == "t", prev: m["prev"], file: m["file"]}
+	var err0 error
+	if c.split, c.out, err0 = parseSplitOut(m); err0 != nil {
+		return nil, err0
+	}
 	if m["fields"] != "" {
 		for _, f := range strings.Split(m["fields"], ",") {
 			p := strings.SplitN(f, ":", 3)
@@ -490,8 +593,49 @@ func (c *gerrorCase) typeNames() []string {
 	return c.allTypeNames()
 }
 
-func (c *gerrorCase) source(pkg string) string {
+func (c *gerrorCase) source(pkg string) string { return c.files(pkg, "defs.go")["defs.go"] }
+
+// files renders every hand-written file of the package (one, or one per error type under split).
+func (c *gerrorCase) files(pkg, defName string) map[string]string {
+	if c.split < 2 {
+		all := make([]int, len(c.allTypeNames()))
+		for i := range all {
+			all[i] = i
+		}
+		return map[string]string{defName: c.render(pkg, all, true)}
+	}
+	byFile := map[string][]int{defName: nil}
+	for ti := range c.allTypeNames() {
+		f := fileOfType(c.split, ti, defName)
+		byFile[f] = append(byFile[f], ti)
+	}
+	res := map[string]string{}
+	for f, idx := range byFile {
+		res[f] = c.render(pkg, idx, f == defName)
+	}
+	return res
+}
+
+// render: one file declaring the given types (and, if asked, the shared local declarations).
+func (c *gerrorCase) render(pkg string, idx []int, withDecls bool) string {
 	var b strings.Builder
+	if len(idx) == 0 {
+		fmt.Fprintf(&b, "package %s\n\n", pkg)
+		if withDecls {
+			seen := map[string]bool{}
+			for _, f := range c.fields {
+				if d := gerrTypes[f.typ].decl; d != "" && !seen[d] {
+					seen[d] = true
+					b.WriteString(d + "\n")
+				}
+			}
+		}
+		return b.String()
+	}
+	here := map[int]bool{}
+	for _, i := range idx {
+		here[i] = true
+	}
 	fmt.Fprintf(&b, "package %s\n\nimport (\n", pkg)
 	imps := map[string]bool{}
 	decls := map[string]bool{}
@@ -522,9 +666,14 @@ func (c *gerrorCase) source(pkg string) string {
 	}
 	sort.Strings(dl)
 	for _, d := range dl {
-		b.WriteString(d + "\n")
+		if withDecls {
+			b.WriteString(d + "\n")
+		}
 	}
 	for ti, tn := range c.allTypeNames() {
+		if !here[ti] {
+			continue
+		}
 		target := ti < len(c.typeNames())
 		fmt.Fprintf(&b, "type %s struct {\n", tn)
 		if c.bad != "noembed" {
@@ -637,10 +786,31 @@ func gsortType(t string) (gsortTypeInfo, bool) {
 type gsortCase struct {
 	fields []gsortField
 	two    bool
+	nt     int // 3 or 4: that many struct types (Rec, Rec2, Rec3, Rec4) with the same fields
 	file   string
 	only1  bool
-	prev   string // "" | moretypes
+	prev   string // "" | moretypes | same
 	bad    string
+	split  int    // 2..4: the struct types are declared in that many files
+	out    string // custom output file name
+}
+
+func (c *gsortCase) nTypes() int {
+	switch {
+	case c.nt > 2:
+		return c.nt
+	case c.two:
+		return 2
+	}
+	return 1
+}
+
+// sorterSuffix: the sorters of the ti-th struct carry a suffix so that sorter names stay distinct.
+func sorterSuffix(ti int) string {
+	if ti == 0 {
+		return ""
+	}
+	return strconv.Itoa(ti + 1)
 }
 
 func (c *gsortCase) header() string {
@@ -661,12 +831,29 @@ func (c *gsortCase) header() string {
 	if c.bad != "" {
 		h += " bad=" + c.bad
 	}
-	return h
+	if c.nt > 2 {
+		h += fmt.Sprintf(" nt=%d", c.nt)
+	}
+	return h + splitOutWords(c.split, c.out)
 }
 
 func parseGsort(ws []string) (*gsortCase, error) {
 	m := kv(ws)
 	c := &gsortCase{two: m["two"] == "t", bad: m["bad"], only1: m["only1"] == "t", prev: m["prev"], file: m["file"]}
+	var err0 error
+	if c.split, c.out, err0 = parseSplitOut(m); err0 != nil {
+		return nil, err0
+	}
+	if v := m["nt"]; v != "" {
+		n, err := strconv.Atoi(v)
+		if err != nil || n < 3 || n > 4 {
+			return nil, fmt.Errorf("bad nt")
+		}
+		c.nt = n
+	}
+	if c.split > c.nTypes() {
+		return nil, fmt.Errorf("more files than types")
+	}
 	if m["fields"] != "" {
 		for _, f := range strings.Split(m["fields"], ";") {
 			p := strings.SplitN(f, ":", 3)
@@ -687,10 +874,7 @@ func parseGsort(ws []string) (*gsortCase, error) {
 }
 
 func (c *gsortCase) allTypeNames() []string {
-	if c.two {
-		return []string{"Rec", "Rec2"}
-	}
-	return []string{"Rec"}
+	return []string{"Rec", "Rec2", "Rec3", "Rec4"}[:c.nTypes()]
 }
 
 func (c *gsortCase) typeNames() []string {
@@ -710,9 +894,7 @@ func (c *gsortCase) sorters() map[string]bool {
 				n := strings.Split(t, ",")[0]
 				ptr := strings.HasPrefix(n, "*")
 				n = strings.TrimPrefix(n, "*")
-				if ti == 1 {
-					n += "2"
-				}
+				n += sorterSuffix(ti)
 				r[n] = ptr
 			}
 		}
@@ -720,9 +902,31 @@ func (c *gsortCase) sorters() map[string]bool {
 	return r
 }
 
-func (c *gsortCase) source(pkg string) string {
+func (c *gsortCase) source(pkg string) string { return c.files(pkg, "defs.go")["defs.go"] }
+
+// files renders every hand-written file of the package (one, or the struct types dealt to
+// `split` files).
+func (c *gsortCase) files(pkg, defName string) map[string]string {
+	byFile := map[string][]int{defName: nil}
+	for ti := range c.allTypeNames() {
+		f := fileOfType(c.split, ti, defName)
+		byFile[f] = append(byFile[f], ti)
+	}
+	res := map[string]string{}
+	for f, idx := range byFile {
+		res[f] = c.render(pkg, idx, f == defName)
+	}
+	return res
+}
+
+// render: one file declaring the given struct types (and, if asked, the local key types).
+func (c *gsortCase) render(pkg string, idx []int, withDecls bool) string {
 	var b strings.Builder
 	fmt.Fprintf(&b, "package %s\n\n", pkg)
+	here := map[int]bool{}
+	for _, i := range idx {
+		here[i] = true
+	}
 	imps := map[string]bool{}
 	decls := map[string]bool{}
 	for _, f := range c.fields {
@@ -740,7 +944,9 @@ func (c *gsortCase) source(pkg string) string {
 	}
 	sort.Strings(il)
 	for _, i := range il {
-		fmt.Fprintf(&b, "import %q\n\n", i)
+		if len(idx) > 0 {
+			fmt.Fprintf(&b, "import %q\n\n", i)
+		}
 	}
 	dl := []string{}
 	for d := range decls {
@@ -748,18 +954,23 @@ func (c *gsortCase) source(pkg string) string {
 	}
 	sort.Strings(dl)
 	for _, d := range dl {
-		b.WriteString(d + "\n")
+		if withDecls {
+			b.WriteString(d + "\n")
+		}
 	}
 	for ti, tn := range c.allTypeNames() {
+		if !here[ti] {
+			continue
+		}
 		fmt.Fprintf(&b, "type %s struct {\n", tn)
 		for _, f := range c.fields {
 			tag := ""
 			if len(f.tags) > 0 {
 				parts := []string{}
 				for _, t := range f.tags {
-					if ti == 1 {
+					if ti >= 1 {
 						p := strings.Split(t, ",")
-						p[0] += "2"
+						p[0] += sorterSuffix(ti)
 						t = strings.Join(p, ",")
 					}
 					parts = append(parts, `gsort:"`+t+`"`)
